@@ -703,9 +703,9 @@ def small_cases():
 
 def plan(ctx, scale=1.0):
     quick = ctx.tier == 'quick'
-    n_serial = int((260 if quick else 4000) * ctx.boost * scale)
-    n_thread = int((220 if quick else 4000) * ctx.boost * scale)
-    n_proc = int((10 if quick else 120) * min(ctx.boost, 2) * scale)
+    n_serial = int((600 if quick else 4000) * ctx.boost * scale)
+    n_thread = int((500 if quick else 4000) * ctx.boost * scale)
+    n_proc = int((15 if quick else 120) * min(ctx.boost, 2) * scale)
     rng = ctx.rng
     gen = []
     for _ in range(n_serial):
@@ -715,7 +715,9 @@ def plan(ctx, scale=1.0):
     rng.shuffle(gen)
     size = 20 if quick else 60
     pool = [{'gen': gen[i:i + size], 'shrink_s': 12.0} for i in range(0, len(gen), size)]
-    procs = [(rng.randrange(1 << 60), dict(KNOBS, runner='process', n_max=6, p_td_fail=0.12)) for _ in range(n_proc)]
+    # process cases without action-less group tasks: the trace acceptor of the run family (Driver/Run.lean, not ours) takes
+    # the silent pick-up / completion of such a task eagerly and then rejects legitimate races with real workers
+    procs = [(rng.randrange(1 << 60), dict(KNOBS, runner='process', n_max=6, p_td_fail=0.12, p_group=0.0)) for _ in range(n_proc)]
     return pool, [{'gen': procs[i:i + 5], 'shrink_s': 10.0} for i in range(0, len(procs), 5)]
 
 
